@@ -35,6 +35,16 @@ pub struct TagSpec {
 /// Fields worth tampering with, per kind: (offset in tag, width in bytes).
 /// Offset 4 (the size word) is implicit for every kind.
 fn interesting_fields(kind: u32, img_len: usize) -> Vec<(usize, usize)> {
+    let mut v = interesting_fields_once(kind, img_len);
+    // the size word is field 0; weight the kind-specific fields 2:1 against it
+    if v.len() > 1 {
+        let extra: Vec<(usize, usize)> = v[1..].to_vec();
+        v.extend(extra);
+    }
+    v
+}
+
+fn interesting_fields_once(kind: u32, img_len: usize) -> Vec<(usize, usize)> {
     let mut v = vec![(4usize, 4usize)];
     match kind {
         1 | 2 | 3 => {
@@ -122,8 +132,9 @@ pub fn build_tag(s: &TagSpec) -> Vec<u8> {
         let l = img.len() as u32;
         put32(&mut img, 4, l);
     }
-    let fields = interesting_fields(s.kind, img.len());
     for (fsel, choice, r) in &s.tweaks {
+        // recomputed each round: a size tweak may have resized the image
+        let fields = interesting_fields(s.kind, img.len());
         let (off, width) = fields[pick(*fsel, fields.len())];
         let cur = match width {
             1 => img[off] as u64,
@@ -136,6 +147,20 @@ pub fn build_tag(s: &TagSpec) -> Vec<u8> {
             1 => img[off] = v as u8,
             2 => put16(&mut img, off, v as u16),
             _ => put32(&mut img, off, v as u32),
+        }
+        // Keep the walk in step most of the time: when the size word was
+        // changed to something moderate, give the image that physical length
+        // (cut it, or extend it with marker bytes), so that the following tags
+        // are still reached while this tag's size disagrees with its contents.
+        if off == 4 && (r >> 8) & 3 != 0 {
+            let s2 = le32(&img, 4) as usize;
+            if (8..=4096).contains(&s2) && s2 != img.len() {
+                let old = img.len();
+                img.resize(s2, 0);
+                for i in old..s2 {
+                    img[i] = marker(s.key, i);
+                }
+            }
         }
     }
     img
@@ -240,7 +265,11 @@ pub fn tag_spec(max_tweaks: usize) -> impl Strategy<Value = TagSpec> {
         prop_oneof![6 => 0u16..6, 2 => 6u16..40, 1 => 40u16..300],
         any::<u32>(),
         any::<u64>(),
-        proptest::collection::vec((any::<u16>(), any::<u8>(), any::<u32>()), 0..=max_tweaks),
+        prop_oneof![
+            4 => Just(Vec::new()),
+            4 => proptest::collection::vec((any::<u16>(), any::<u8>(), any::<u32>()), 1..=1),
+            2 => proptest::collection::vec((any::<u16>(), any::<u8>(), any::<u32>()), 0..=max_tweaks.max(1)),
+        ],
         prop_oneof![8 => Just(Vec::new()), 2 => proptest::collection::vec(any::<u8>(), 1..24)],
     )
         .prop_map(|(kind, n, sel, key, tweaks, extra)| TagSpec { kind, n, sel, key, tweaks, extra })
